@@ -326,11 +326,24 @@ Tighten(T, s, e) ==
 SearchEnd(T, s, e) ==     \* solve_one returned None inside optimize
   << [s EXCEPT !.cnt = s.cnt], Failed(<< <<"C17:stats-exact", e.stats = s.cnt>> >>) >>
 
+\* C01 on a RETURNED vector, read by itself (not through the incumbent the search stood on): the views of one shared
+\* domain agree on its value, that value is inside the declared domain, every posted constraint holds
+ViewsAgree(P, sol) == /\ Len(sol) = Len(P.vidx)
+                      /\ \A v, w \in 1..Len(P.vidx) : P.vidx[v] = P.vidx[w] => sol[v] - P.voff[v] = sol[w] - P.voff[w]
+ReturnedAsg(P, sol, dflt) == [d \in 1..Len(P.doms) |->
+                          IF \E v \in 1..Len(P.vidx) : P.vidx[v] = d - 1
+                          THEN LET v == CHOOSE v \in 1..Len(P.vidx) : P.vidx[v] = d - 1 IN sol[v] - P.voff[v]
+                          ELSE dflt[d]]
 OptReturn(T, s, e) ==
   LET P == T.P
       objs == {Objective(P, T, x) : x \in s.sols}
+      dflt == IF s.hasInc THEN s.inc ELSE PointOf(P.doms)
+      rasg == ReturnedAsg(P, e.sol, dflt)
       best == IF objs = {} THEN 0 ELSE IF T.mode = "min" THEN Min(objs) ELSE Max(objs)
       bad == Failed(<<
+        <<"C01:returned-views-differ-by-their-offsets", e.none \/ ViewsAgree(P, e.sol)>>,
+        <<"C01:returned-in-domain",  e.none \/ ~ViewsAgree(P, e.sol) \/ InBox(rasg, P.doms)>>,
+        <<"C01:returned-sat-all",    e.none \/ ~ViewsAgree(P, e.sol) \/ SatAll(P, rasg)>>,
         <<"C03:none-iff-infeasible", ~s.oracle \/ (e.none <=> s.sols = {})>>,
         <<"C03:returns-incumbent",   IF e.none THEN ~s.hasInc ELSE s.hasInc /\ e.sol = SolVector(P, s.inc)>>,
         <<"C03:feasible",            e.none \/ ~s.hasInc \/ SatAll(P, s.inc)>>,
@@ -338,10 +351,16 @@ OptReturn(T, s, e) ==
         <<"C17:stats-exact",         e.stats = s.cnt>> >>)
   IN << s, bad >>
 
-IsCapacityError(e) == e.type = "IndexError" /\ Len(e.msg) >= 26 /\ SubSeq(e.msg, 1, 26) = "The stack of choice points"
+\* a deliberate report of the library (a raise statement of its own, whatever its wording); the recorder tells it from
+\* an error that merely happens inside the library (origin "other") and from a failure of the recorder itself
+IsCapacityError(e) == e.origin = "raise"
+                      \/ (e.type = "IndexError" /\ Len(e.msg) >= 26 /\ SubSeq(e.msg, 1, 26) = "The stack of choice points")
 Raised(T, s, e) ==
-  IF IsCapacityError(e) THEN << s, {} >>      \* reporting a full stack is the behaviour C19 asks for
-  ELSE << s, {IF e.type = "IndexError" THEN "C16:index-error" ELSE "C04:raised-" \o e.type} >>
+  IF e.origin = "harness" THEN << s, {"XX:harness-raised-" \o e.type} >>
+  ELSE IF IsCapacityError(e) THEN << s, {} >>      \* reporting a full stack is the behaviour C19 asks for
+  ELSE << s, {IF e.type = "IndexError" THEN "C16:index-error" ELSE "C04:raised-" \o e.type,
+              \* a call that ends in an unexpected exception neither enumerates (C02) nor returns an optimum (C03)
+              IF T.mode = "solve" THEN "C02:raised-" \o e.type ELSE "C03:raised-" \o e.type} >>
 
 Step(T, s, e) ==
   IF s.over /\ ~(e.k = "X" /\ IsCapacityError(e)) THEN << [s EXCEPT !.over = FALSE], {"C19:continues-above-the-configured-height"} >> ELSE
